@@ -92,13 +92,16 @@ Fixpoint autogen (l : list fnarg) (index : nat) (taken : list string) : result (
 (** ** Final pass: [make_idents_unique] *)
 Definition is_raw (s : string) : bool := starts_with "r#" s.
 
-(** [format_ident!("{}_", ident)]: a raw identifier loses its [r#] *)
-Definition suffix (s : string) : string := (if is_raw s then drop_str 2 s else s) +++ "_".
+(** [IdentExt::unraw]: [r#type] and [type] are the same identifier *)
+Definition unraw (s : string) : string := if is_raw s then drop_str 2 s else s.
 
-(** [while taken.contains(ident) { ident = suffix ident }], on explicit fuel
-    (|taken| + 1 rounds suffice: FnParamsProofs.uniq_name_total) *)
+(** [format_ident!("{}_", ident)]: a raw identifier loses its [r#] *)
+Definition suffix (s : string) : string := unraw s +++ "_".
+
+(** [while taken.contains(unraw(ident)) { ident = suffix ident }], on explicit fuel
+    (|taken| + 1 rounds suffice: FnParamsProofs.uniq_name_total); the set holds un-raw'd names *)
 Fixpoint uniq_name (fuel : nat) (name : string) (taken : list string) : option string :=
-  if str_mem name taken then
+  if str_mem (unraw name) taken then
     match fuel with
     | O => None
     | S k => uniq_name k (suffix name) taken
@@ -112,7 +115,7 @@ Fixpoint make_unique (l : list fnarg) (taken : list string) : result (list fnarg
       match uniq_name (S (List.length taken)) n taken with
       | None => OutOfDomain "make_idents_unique fuel"
       | Some n' =>
-          let* rest' := make_unique rest (n' :: taken) in
+          let* rest' := make_unique rest (unraw n' :: taken) in
           Ok (ArgTyped attrs (PIdent r m n' sub) ty :: rest')
       end
   | a :: rest => let* rest' := make_unique rest taken in Ok (a :: rest')
@@ -125,5 +128,5 @@ Definition fix_fn_param_idents (fn_name : string) (l : list fnarg) : result (lis
     if all_ok l1 then Ok l1
     else
       let l2 := map lift l1 in
-      if all_ok l2 then Ok l2 else autogen l2 0 (fn_name :: plain_names l2) in
-  make_unique l3 [fn_name].
+      if all_ok l2 then Ok l2 else autogen l2 0 (unraw fn_name :: map unraw (plain_names l2)) in
+  make_unique l3 [unraw fn_name].
